@@ -34,9 +34,154 @@ import YtkProofs.PipelineDataWF
 import YtkProofs.MergeRel
 import YtkProofs.HeapPatch
 import YtkProofs.HeapSet
+import YtkProofs.Decisions
+import YtkModel.Generated.Constants
 
 namespace Ytk.C13
 open Ytk.PD
+
+/-! ## decision tables regenerated from the source (extract/tables.go) -/
+section DecisionTables
+open Ytk.TableT
+
+/-- a codec record whose three decoders give distinguishable documents -/
+def probeCodecs : Codecs where
+  yaml := fun _ => some [("codec", .leaf ⟨"string", "yaml"⟩)]
+  json := fun _ => some [("codec", .leaf ⟨"string", "json"⟩)]
+  props := fun _ => some [("codec", .leaf ⟨"string", "properties"⟩)]
+  text := fun bs => String.ofList (bs.map Char.ofNat)
+
+/-- what a class of the regenerated import table means, on the probe codecs and the bytes `hi` -/
+def importClassResult (cls : String) : Option Node :=
+  if cls = "leaf:string" then some (.leaf ⟨"string", "hi"⟩)
+  else if cls = "leaf:base64" then some (.leaf ⟨"string", "aGk="⟩)
+  else if cls = "decode:dom.DefaultYamlDecoder" then some (.cont [("codec", .leaf ⟨"string", "yaml"⟩)])
+  else if cls = "decode:dom.DefaultJsonDecoder" then some (.cont [("codec", .leaf ⟨"string", "json"⟩)])
+  else if cls = "decode:props.DecoderFn" then some (.cont [("codec", .leaf ⟨"string", "properties"⟩)])
+  else none
+
+/-- (i) The mode switch of ParseFileMode.toValue and the default mode of parseFile, as regenerated from
+    pipeline/import_op.go and pipeline/utils.go, ARE the model's mode table and default; `toValue` equals
+    the lookup in that table; and the model's `toValue`, run on every mode of the regenerated table (and
+    on the empty mode), produces what the regenerated class says. -/
+theorem import_modes_table_matches_model :
+    pairs Generated.importModes = modeTable.map (fun p => (p.1, p.2.goName)) ∧
+    Generated.importModesDefault = "error" ∧
+    Generated.importDefaultMode = defaultMode ∧
+    (∀ cd mode content, toValue cd mode content =
+      match modeTable.lookup (if mode = "" then defaultMode else mode) with
+      | some c => c.apply cd content
+      | none => none) ∧
+    (∀ r ∈ Generated.importModes, toValue probeCodecs r.key [104, 105] = importClassResult r.target) ∧
+    toValue probeCodecs "" [104, 105] =
+      importClassResult (lookupD Generated.importModes Generated.importModesDefault Generated.importDefaultMode) ∧
+    toValue probeCodecs "no-such-mode" [104, 105] = none :=
+  ⟨by decide +kernel, by decide +kernel, by decide +kernel, toValue_eq_table, by decide +kernel,
+   by decide +kernel, by decide +kernel⟩
+
+/-- (ii) import: text mode stores the content as a string leaf, binary mode its standard base64, the
+    default mode is text, the structured modes decode with the very decoders the file-suffix provider
+    uses for `.yaml` / `.json` / `.properties`, and any other mode is an error. -/
+theorem import_modes_table_rule :
+    lookupD Generated.importModes Generated.importModesDefault "text" = "leaf:string" ∧
+    lookupD Generated.importModes Generated.importModesDefault "binary" = "leaf:base64" ∧
+    Generated.importDefaultMode = "text" ∧
+    lookupD Generated.importModes Generated.importModesDefault "yaml" =
+      "decode:" ++ lookupD Generated.fileDecoders Generated.fileDecodersDefault ".yaml" ∧
+    lookupD Generated.importModes Generated.importModesDefault "json" =
+      "decode:" ++ lookupD Generated.fileDecoders Generated.fileDecodersDefault ".json" ∧
+    lookupD Generated.importModes Generated.importModesDefault "properties" =
+      "decode:" ++ lookupD Generated.fileDecoders Generated.fileDecodersDefault ".properties" ∧
+    Generated.importModesDefault = "error" ∧
+    keys Generated.importModes = ["binary", "json", "properties", "text", "yaml"] ∧
+    (∀ r ∈ Generated.importModes, Generated.const? ("pipeline." ++ r.const) = some r.key) := by
+  decide +kernel
+
+/-- (i) The format switch of ExportOp.Do as regenerated from pipeline/export_op.go IS the model's format
+    table (same format names, the encoder the model's `Format` stands for, error otherwise),
+    `Format.ofString` equals the lookup in that table, and the value exported for an unresolved path is
+    what the model's `exportDecision` writes for an absent target under every format of the table. -/
+theorem export_formats_table_matches_model :
+    pairs Generated.exportFormats = formatTable.map (fun p => (p.1, p.2.encoder)) ∧
+    Generated.exportFormatsDefault = Format.unknown.encoder ∧
+    (∀ s, Format.ofString s = (formatTable.lookup s).getD .unknown) ∧
+    (∀ r ∈ Generated.exportDefaults, (exportDecision (Format.ofString r.key) .absent).defaultName = r.target) ∧
+    exportDecision (Format.ofString "no-such-format") .absent = .errorBeforeOpen :=
+  ⟨by decide +kernel, by decide +kernel, Format.ofString_eq_table, by decide +kernel, by decide +kernel⟩
+
+/-- (ii) export: yaml and json are written with the encoders the file-suffix provider pairs with the
+    decoders import uses (so that an exported subtree can be imported back), text prints the leaf with
+    `%v`; an unresolved path exports the empty container — the empty string leaf under text —; an
+    unknown format is an error. -/
+theorem export_formats_table_rule :
+    lookupD Generated.exportFormats Generated.exportFormatsDefault "yaml" =
+      lookupD Generated.fileEncoders Generated.fileEncodersDefault ".yaml" ∧
+    lookupD Generated.exportFormats Generated.exportFormatsDefault "json" =
+      lookupD Generated.fileEncoders Generated.fileEncodersDefault ".json" ∧
+    lookupD Generated.exportFormats Generated.exportFormatsDefault "properties" =
+      lookupD Generated.fileEncoders Generated.fileEncodersDefault ".properties" ∧
+    lookupD Generated.exportFormats Generated.exportFormatsDefault "text" = "fmt.Fprintf:%v" ∧
+    Generated.exportFormatsDefault = "error" ∧
+    pairs Generated.exportDefaults =
+      [("json", "container"), ("properties", "container"), ("text", "leaf:\"\""), ("yaml", "container")] ∧
+    keys Generated.exportFormats = keys Generated.exportDefaults ∧
+    (∀ r ∈ Generated.exportFormats, Generated.const? ("pipeline." ++ r.const) = some r.key) := by
+  decide +kernel
+
+/-- (i) setHandlerFnMap and the default strategy of SetOp.Do as regenerated from pipeline/set_op.go ARE
+    the model's strategy table and default, and `setOp` equals the lookup in that table. -/
+theorem set_strategies_table_matches_model :
+    pairs Generated.setStrategies = strategyTable.map (fun p => (p.1, p.2.goName)) ∧
+    Generated.setStrategiesDefault = "error" ∧
+    Generated.setDefaultStrategy = defaultStrategy ∧
+    (∀ mergeC data payload path strategy, setOp mergeC data payload path strategy =
+      match payload with
+      | none => .err
+      | some other =>
+        match strategyTable.lookup (strategy.getD defaultStrategy) with
+        | some c => .ok (c.apply mergeC path data other)
+        | none => .err) :=
+  ⟨by decide +kernel, by decide +kernel, by decide +kernel, setOp_eq_table⟩
+
+/-- (ii) set: the strategies are exactly merge (merges into what is there) and replace (stores the
+    payload), an unset strategy means merge, any other strategy is an error. -/
+theorem set_strategies_table_rule :
+    pairs Generated.setStrategies = [("merge", "merge"), ("replace", "replace")] ∧
+    Generated.setDefaultStrategy = "merge" ∧ Generated.setStrategiesDefault = "error" ∧
+    (∀ r ∈ Generated.setStrategies, Generated.const? ("pipeline." ++ r.const) = some r.key) := by
+  decide +kernel
+
+/-- (i) The parseAs switch of TemplateOp.Do and its default, as regenerated from
+    pipeline/template_op.go, ARE the model's table and default, and `templateOp` equals the table-driven
+    `templateOpT`. -/
+theorem template_parseas_table_matches_model :
+    pairs Generated.templateParseAs = parseAsTable.map (fun p => (p.1, p.2.goName)) ∧
+    Generated.templateParseAsDefault = "error" ∧
+    Generated.templateDefaultParseAs = defaultParseAs ∧
+    (∀ render lenient trimFn yamlParse t data,
+      templateOp render lenient trimFn yamlParse t data = templateOpT render lenient trimFn yamlParse t data) :=
+  ⟨by decide +kernel, by decide +kernel, by decide +kernel, templateOp_eq_table⟩
+
+/-- (ii) template: `none` stores the rendered text as a string leaf, `yaml` its YAML parse, an unset
+    parseAs means `none`, anything else is an error. -/
+theorem template_parseas_table_rule :
+    pairs Generated.templateParseAs = [("none", "leaf:string"), ("yaml", "yaml")] ∧
+    Generated.templateDefaultParseAs = "none" ∧ Generated.templateParseAsDefault = "error" ∧
+    (∀ r ∈ Generated.templateParseAs, Generated.const? ("pipeline." ++ r.const) = some r.key) := by
+  decide +kernel
+
+/-- (iii) the tables are not empty and their keys are distinct -/
+theorem nonvacuous_pipeline_tables :
+    Generated.importModes.length = 5 ∧ (keys Generated.importModes).Nodup ∧
+    Generated.exportFormats.length = 4 ∧ (keys Generated.exportFormats).Nodup ∧
+    Generated.setStrategies.length = 2 ∧ (keys Generated.setStrategies).Nodup ∧
+    Generated.templateParseAs.length = 2 ∧ (keys Generated.templateParseAs).Nodup ∧
+    Generated.importDefaultMode ∈ keys Generated.importModes ∧
+    Generated.setDefaultStrategy ∈ keys Generated.setStrategies ∧
+    Generated.templateDefaultParseAs ∈ keys Generated.templateParseAs := by
+  decide +kernel
+
+end DecisionTables
 
 variable (mergeC : AMap Node → AMap Node → AMap Node)
 
@@ -982,24 +1127,24 @@ theorem heap_patchOp_nofix_valueFrom_cyclic :
 theorem heap_setOp_payload_fresh (merge : Bool) (comps : List String) (data : List (String × Node))
     (h h' : Heap) (root c : Addr) (hnil : h.NilOk)
     (he : setOpH merge comps data h root = some (h', c)) :
-    ∃ h1, decodeNode h (.cont data) = (h1, c) ∧ h ≤ h1 ∧ h.size ≤ c ∧
+    ∃ h1, Ytk.Heap.decodeNode h (.cont data) = (h1, c) ∧ h ≤ h1 ∧ h.size ≤ c ∧
       (∀ b, Reach h1 c b → h.size ≤ b ∨ b = nilAddr) ∧
-      (merge = false → comps ≠ [] → addValueAtH h1 root comps c = some h') := by
-  obtain ⟨hl, hfresh⟩ := decodeNode_fresh (.cont data) h hnil
+      (merge = false → comps ≠ [] → setAddValueAtH h1 root comps c = some h') := by
+  obtain ⟨hl, hfresh⟩ := Ytk.Heap.decodeNode_fresh (.cont data) h hnil
   unfold setOpH at he
-  generalize hdec : decodeNode h (.cont data) = r at he hl hfresh
+  generalize hdec : Ytk.Heap.decodeNode h (.cont data) = r at he hl hfresh
   obtain ⟨h1, c1⟩ := r
   simp only at he hl hfresh
   have hc1 : h.size ≤ c1 := by
     -- the root of a decoded MAP is a new container cell (never the nil leaf)
-    have : c1 = (decodeKvs h data).1.size := by
-      simp only [decodeNode] at hdec
-      generalize decodeKvs h data = q at hdec
+    have : c1 = (Ytk.Heap.decodeKvs h data).1.size := by
+      simp only [Ytk.Heap.decodeNode] at hdec
+      generalize Ytk.Heap.decodeKvs h data = q at hdec
       obtain ⟨g, m⟩ := q
       simp only [Heap.alloc, Prod.mk.injEq] at hdec
       exact hdec.2.symm
     rw [this]
-    exact Heap.size_le_of_le (decodeKvs_le data h)
+    exact Heap.size_le_of_le (Ytk.Heap.decodeKvs_le data h)
   cases hg : h1.get? c1 with
   | none => simp [hg] at he
   | some cell =>
